@@ -26,6 +26,9 @@ import (
 type arena struct {
 	bufs map[int][]byte
 	ints map[int]*big.Int
+	want map[int][]byte // content each input buffer was handed out with (arguments must not be written by the callee)
+	wnum map[int]*big.Int
+	outs map[int]bool  // slots handed out as output buffers
 	hold func() string // set by an op: re-reads a result the caller keeps (it must stay what it was)
 }
 
@@ -41,7 +44,9 @@ func (a *arena) wipe() {
 	}
 }
 
-func newArena() *arena { return &arena{bufs: map[int][]byte{}, ints: map[int]*big.Int{}} }
+func newArena() *arena {
+	return &arena{bufs: map[int][]byte{}, ints: map[int]*big.Int{}, want: map[int][]byte{}, wnum: map[int]*big.Int{}, outs: map[int]bool{}}
+}
 
 // buf returns the slot's buffer holding content: same backing array on every use (grown once to 1 KiB + need), so
 // consecutive calls see "the same caller buffer, overwritten in place". Capacity beyond len is poisoned.
@@ -57,7 +62,41 @@ func (a *arena) buf(slot int, content []byte) []byte {
 	b = b[:len(content)]
 	copy(b, content)
 	a.bufs[slot] = b
+	a.want[slot] = append([]byte{}, content...)
+	delete(a.outs, slot)
 	return b
+}
+
+// out returns the slot's buffer as an output buffer of n bytes (the callee may write it).
+func (a *arena) out(slot, n int) []byte {
+	b := a.buf(slot, make([]byte, n))
+	a.outs[slot] = true
+	return b
+}
+
+// modified names an input argument the callee wrote to (or wrote behind), "" if none.
+func (a *arena) modified() string {
+	for slot, w := range a.want {
+		b := a.bufs[slot]
+		if a.outs[slot] {
+			if tailWritten(b) {
+				return fmt.Sprintf("memory behind output buffer %d", slot)
+			}
+			continue
+		}
+		if len(b) != len(w) || string(b) != string(w) {
+			return fmt.Sprintf("argument buffer %d", slot)
+		}
+		if tailWritten(b) {
+			return fmt.Sprintf("memory behind argument buffer %d", slot)
+		}
+	}
+	for slot, w := range a.wnum {
+		if a.ints[slot].Cmp(w) != 0 {
+			return fmt.Sprintf("big.Int argument %d", slot)
+		}
+	}
+	return ""
 }
 
 // num returns the slot's big.Int set (in place) to v.
@@ -67,6 +106,7 @@ func (a *arena) num(slot int, v *big.Int) *big.Int {
 		x = new(big.Int)
 		a.ints[slot] = x
 	}
+	a.wnum[slot] = new(big.Int).Set(v)
 	return x.Set(v)
 }
 
@@ -158,7 +198,11 @@ func historyPass(c *core.Ctx, id string) {
 				for i, o := range hist {
 					var g string
 					a.hold = nil
+					a.want, a.wnum = map[int][]byte{}, map[int]*big.Int{}
 					q := core.Catch(func() { g = ops[o].run(a) })
+					if m := a.modified(); m != "" && q == nil {
+						c.Violate(id+"/history/argument-modified", fmt.Sprintf("%s wrote to %s of its caller", ops[o].name, m), ops[o].name, "", nil)
+					}
 					a.wipe() // the caller wipes / recycles every buffer it passed in
 					if i == len(hist)-1 {
 						got, p = g, q
